@@ -1,9 +1,93 @@
 (** C20 - The web API and YAML tests report exactly what the engine computes.
-    Only statements here; proofs are in proofs/ApiProofs.v. *)
-From Coq Require Import ZArith QArith List Bool String.
-From Verif Require Import Base Cal Period Engine Api ApiProofs.
-Import ListNotations.
+    Only statements here; proofs are in proofs/ApiProofs.v.
 
+    Vocabulary (coq/model/Api.v, coq/model/ApiSpec.v).  A JSON situation is the list of
+    its depth-4 paths (entity plural, instance id, key, sub-key) with their leaves, in
+    document order.  [api_calculate] / [api_trace] are handlers.calculate / handlers.trace
+    over an abstract engine; [table_calc value_of] is an engine that answers from a table
+    [value_of variable period_key]; [api_calculate_eng] runs the same handler on the
+    machine of Engine.v (one simulation per request, its cache shared by the request's
+    slots).  [fills var_info ids_of value_of path leaf]: [leaf] is the engine's value for
+    that entity instance, variable and period, rendered in the variable's type.
+    [yaml_verdict] is YamlItem.check_output + tools.assert_near; [expectations] is what an
+    output section denotes, [holds] says that one expectation lies within its margin of
+    the engine's value (ApiSpec.v).
+
+    PARTIAL: HTTP, JSON, dpath, PyYAML and pytest are outside these theorems; the tie to the
+    code is the correspondence run of harness/c20.py. *)
+From Coq Require Import ZArith QArith Qabs List Bool String.
+From Verif Require Import Base Cal Period Engine EngineProofs Api ApiSpec ApiProofs.
+Import ListNotations.
+Open Scope string_scope.
+
+(** The answer has exactly the paths of the request, in the same order; every leaf that
+    was not null is returned unchanged; every null leaf becomes the engine's value for
+    that instance, variable and period, rendered in the variable's type. *)
+Theorem calculate_fills_exactly :
+  forall var_info ids_of is_role period_ok value_of d out,
+    NoDup (map fst d) ->
+    api_calculate var_info ids_of is_role period_ok table_build (table_calc value_of) d = Done out ->
+    Forall2 (fun e o => fst o = fst e
+                        /\ (snd e <> Null -> snd o = snd e)
+                        /\ (snd e = Null -> fills var_info ids_of value_of (fst e) (snd o))) d out.
+Proof. exact calculate_fills. Qed.
+Print Assumptions calculate_fills_exactly.
+
+(** The same on the machine of Engine.v for ranked rule systems (C01): the simulation built
+    from the request holds its inputs, and every requested slot receives the MEANING
+    [Engine.sem] of the rule system on those inputs ([eng_value_of] is [sem] behind the
+    variable-name and period-key lookups), although the slots are computed one after the
+    other on one simulation with a shared cache. *)
+Theorem calculate_fills_exactly_engine :
+  forall sy pp names pids gids, ranked sy = true -> (1 <= max_loops sy)%nat ->
+  forall d out, NoDup (map fst d) ->
+    api_calculate_eng sy pp names pids gids d = Done out ->
+    exists inp, eng_build sy pp names pids gids d = Ok (init inp) /\
+      Forall2 (fun e o => fst o = fst e
+                          /\ (snd e <> Null -> snd o = snd e)
+                          /\ (snd e = Null ->
+                              fills (eng_var_info sy names) (eng_ids_of pids gids)
+                                    (eng_value_of sy pp names inp) (fst e) (snd o))) d out.
+Proof. exact calculate_eng_fills. Qed.
+Print Assumptions calculate_fills_exactly_engine.
+
+(** Whatever the outcome (answer, refusal, failure), the handlers on the machine answer as
+    the handlers over the table of meanings. *)
+Theorem machine_answers_as_meaning :
+  forall sy pp names pids gids, ranked sy = true -> (1 <= max_loops sy)%nat ->
+  forall d s0, eng_build sy pp names pids gids d = Ok s0 ->
+    api_calculate_eng sy pp names pids gids d
+    = api_calculate (eng_var_info sy names) (eng_ids_of pids gids) eng_is_role eng_period_ok
+                    table_build (table_calc (eng_value_of sy pp names (cache s0))) d
+    /\ api_trace_eng sy pp names pids gids d
+       = api_trace (eng_var_info sy names) (eng_ids_of pids gids) eng_is_role eng_period_ok
+                   table_build (table_calc (eng_value_of sy pp names (cache s0)))
+                   [persons_pl; groups_pl] eng_canon d.
+Proof. exact machine_as_meaning. Qed.
+Print Assumptions machine_answers_as_meaning.
+
+(** For the same request, /trace lists the requested calculations and the ids of the
+    populations, and the value it reports for a requested calculation holds, at the
+    position of the instance, the leaf that /calculate puts into the slot. *)
+Theorem trace_agrees_with_calculate :
+  forall var_info ids_of is_role period_ok value_of plurals canon d out t,
+    NoDup (map fst d) ->
+    api_calculate var_info ids_of is_role period_ok table_build (table_calc value_of) d = Done out ->
+    api_trace var_info ids_of is_role period_ok table_build (table_calc value_of) plurals canon d = Done t ->
+    requested t = map (fun pa => let '(_, _, v, pk) := pa in trace_key v pk)
+                      (null_paths d)
+    /\ described t = map (fun pl => (pl, match ids_of pl with Some ids => ids | None => [] end)) plurals
+    /\ Forall2 (fun pa kv => let '(pl, id, v, pk) := pa in
+                  fst kv = trace_key v (canon pk)
+                  /\ exists ids i l, ids_of pl = Some ids /\ index_of id ids = Some i
+                                     /\ In (pa, l) out /\ nth_error (snd kv) i = Some l)
+               (null_paths d) (traced t).
+Proof. exact trace_agrees. Qed.
+Print Assumptions trace_agrees_with_calculate.
+
+(** The model's application keeps nothing between requests: in any sequence served by
+    one instance every request is answered as if it were alone.  (That the real
+    application behaves like this model is what the correspondence run checks.) *)
 Theorem requests_independent :
   forall (St : Type) var_info ids_of is_role period_ok (build : doc -> res St) ecalc plurals canon before r after,
     nth_error (serve var_info ids_of is_role period_ok build ecalc plurals canon (before ++ r :: after))
@@ -11,5 +95,163 @@ Theorem requests_independent :
     = Some (handle var_info ids_of is_role period_ok build ecalc plurals canon r)
     /\ serve var_info ids_of is_role period_ok build ecalc plurals canon [r]
        = [handle var_info ids_of is_role period_ok build ecalc plurals canon r].
-Proof. intros St. exact (@serve_independent St). Qed.
+Proof. exact @serve_independent. Qed.
 Print Assumptions requests_independent.
+
+(** A YAML test passes exactly when its output section is well formed and every
+    expectation it denotes lies within its margin of the engine's value: numbers (int,
+    float, bool as 0/1) within the absolute and the relative margin that are given (0 when
+    none is), enum names, ISO dates and strings equal. *)
+Theorem verdict_iff_within_margin :
+  forall var_type is_singular ids_of value_of tst,
+    yaml_verdict var_type is_singular ids_of value_of tst = true
+    <-> exists xs, expectations var_type is_singular ids_of tst = Ok xs
+                   /\ Forall (holds var_type value_of tst) xs.
+Proof. exact verdict_iff. Qed.
+Print Assumptions verdict_iff_within_margin.
+
+(** What "close" means for two comparable values (the decision procedure of the model is
+    this proposition). *)
+Theorem close_decided : forall am rm p, closeb am rm p = true <-> close am rm p.
+Proof. exact closeb_iff. Qed.
+Print Assumptions close_decided.
+
+(** The three layouts of the same per-instance expectations - by variable, by entity, by
+    entity instance - denote the same expectations and get the same verdict. *)
+Theorem layouts_equivalent :
+  forall var_type is_singular ids_of value_of period abs_m rel_m key plural ids (cells : list cell),
+    Forall (fun c : cell => exists ty, var_type (fst (fst c)) = Some ty) cells ->
+    var_type key = None /\ is_singular key = true ->
+    var_type plural = None /\ is_singular plural = false /\ ids_of plural = Some ids ->
+    NoDup ids -> ids <> [] ->
+    Forall (fun c : cell => List.length (snd c) = List.length ids) cells ->
+    (forall c arr, In c cells -> value_of (fst (fst c)) (snd (fst c)) = Ok arr -> List.length arr = List.length ids) ->
+    yaml_verdict var_type is_singular ids_of value_of (test_with period abs_m rel_m (by_entity key cells))
+    = yaml_verdict var_type is_singular ids_of value_of (test_with period abs_m rel_m (by_variable cells))
+    /\ yaml_verdict var_type is_singular ids_of value_of (test_with period abs_m rel_m (by_instance plural ids cells))
+       = yaml_verdict var_type is_singular ids_of value_of (test_with period abs_m rel_m (by_variable cells)).
+Proof. exact layouts_equiv. Qed.
+Print Assumptions layouts_equivalent.
+
+(** * Non-vacuity *)
+
+Definition ex_vars (v : string) : option (jtype * string) :=
+  if String.eqb v "salary" then Some (JFloat, "persons")
+  else if String.eqb v "birth" then Some (JDate, "persons")
+  else if String.eqb v "housing" then Some (JEnum ["owner"; "tenant"], "households")
+  else None.
+Definition ex_ids (pl : string) : option (list string) :=
+  if String.eqb pl "persons" then Some ["bob"; "alice"]
+  else if String.eqb pl "households" then Some ["h"] else None.
+Definition ex_values (v pk : string) : res (list raw) :=
+  if String.eqb v "salary" then Ok [RQ (5 # 2); RZ 7]
+  else if String.eqb v "birth" then Ok [RD (1980, 2, 3)%Z; RD (1970, 1, 1)%Z]
+  else if String.eqb v "housing" then Ok [RZ 1] else Err ENotFound.
+Definition ex_doc : doc :=
+  [ (("persons", "bob", "salary", "2018-01"), Num 3);
+    (("persons", "alice", "salary", "2018-01"), Null);
+    (("persons", "alice", "birth", "ETERNITY"), Null);
+    (("households", "h", "parents", "0"), Str "bob");
+    (("households", "h", "housing", "2018-01"), Null) ].
+
+Example ex_nodup : NoDup (map fst ex_doc).
+Proof. repeat constructor; cbn; intuition discriminate. Qed.
+
+Example ex_calculate :
+  api_calculate ex_vars ex_ids eng_is_role eng_period_ok table_build (table_calc ex_values) ex_doc
+  = Done [ (("persons", "bob", "salary", "2018-01"), Num 3);
+           (("persons", "alice", "salary", "2018-01"), Flt (inject_Z 7));
+           (("persons", "alice", "birth", "ETERNITY"), Str "1970-01-01");
+           (("households", "h", "parents", "0"), Str "bob");
+           (("households", "h", "housing", "2018-01"), Str "tenant") ].
+Proof. vm_compute. reflexivity. Qed.
+
+Example ex_trace :
+  exists t, api_trace ex_vars ex_ids eng_is_role eng_period_ok table_build (table_calc ex_values)
+                      ["persons"; "households"] eng_canon ex_doc = Done t
+            /\ requested t = ["salary<2018-01>"; "birth<ETERNITY>"; "housing<2018-01>"]
+            /\ traced t = [ ("salary<2018-01>", [Flt (5 # 2); Flt (inject_Z 7)]);
+                            ("birth<ETERNITY>", [Str "1980-02-03"; Str "1970-01-01"]);
+                            ("housing<2018-01>", [Str "tenant"]) ].
+Proof. eexists. vm_compute. repeat split. Qed.
+
+Example ex_refused :
+  api_calculate ex_vars ex_ids eng_is_role eng_period_ok table_build (table_calc ex_values)
+                [(("persons", "bob", "ghost", "2018"), Null)] = Refused 404%Z
+  /\ api_calculate ex_vars ex_ids eng_is_role eng_period_ok table_build (table_calc ex_values)
+                   [(("persons", "bob", "salary", "2018-13"), Null)] = Refused 400%Z.
+Proof. split; vm_compute; reflexivity. Qed.
+
+(** the machine: the rule system of props/C01.v, a request with an input and two slots *)
+Definition ex_pop : popu :=
+  {| grp := {| Group.g_entity := {| Group.e_key := "household"; Group.e_roles := []; Group.e_containing := [] |};
+               Group.g_count := 2; Group.g_ids := [0; 1; 0]%nat; Group.g_roles := [0; 0; 0]%nat |} |}.
+Definition ex_sys : sys :=
+  {| vars := [ mk_var EPerson TInt Month None [] 0%Z false false;
+               mk_var EPerson TInt Year None
+                 [((1, 1, 1)%Z, EDep 0 PSame OAdd); ((2019, 1, 1)%Z, EBin BAdd (EDep 0 PFirstMonth OPlain) (EConst 1))]
+                 0%Z false false;
+               mk_var EGroup TFloat Year None [((1, 1, 1)%Z, EAgg GSum None (EDep 1 PSame OPlain))] 0%Z false false ];
+     params := []; switches := []; max_loops := 1 |}.
+Definition ex_eng_doc : doc :=
+  [ (("persons", "a", "v0", "2018-03"), Num 10);
+    (("persons", "b", "v0", "2018-03"), Num 20);
+    (("persons", "c", "v0", "month:2018-03"), Num 30);
+    (("persons", "a", "v1", "2018"), Null);
+    (("households", "h0", "v2", "2018"), Null);
+    (("households", "h1", "v2", "2018"), Null) ].
+
+Example ex_engine_hyps : ranked ex_sys = true /\ (1 <= max_loops ex_sys)%nat.
+Proof. split; [reflexivity|apply le_n]. Qed.
+
+Example ex_engine :
+  api_calculate_eng ex_sys ex_pop ["v0"; "v1"; "v2"] ["a"; "b"; "c"] ["h0"; "h1"] ex_eng_doc
+  = Done [ (("persons", "a", "v0", "2018-03"), Num 10);
+           (("persons", "b", "v0", "2018-03"), Num 20);
+           (("persons", "c", "v0", "month:2018-03"), Num 30);
+           (("persons", "a", "v1", "2018"), Num 10);
+           (("households", "h0", "v2", "2018"), Flt (inject_Z 40));
+           (("households", "h1", "v2", "2018"), Flt (inject_Z 20)) ].
+Proof. vm_compute. reflexivity. Qed.
+
+(** YAML: engine values 2.5 and 7; an absolute margin of 1/2 accepts 3 (exactly at the
+    margin) and refuses 3.25; a relative margin of 1/2 accepts 14 for 7 (at the margin). *)
+Definition ex_vt (v : string) : option jtype := option_map fst (ex_vars v).
+Definition ex_sing (k : string) : bool := String.eqb k "person" || String.eqb k "household".
+Definition ex_cells (x : Q) : list cell := [("salary", "2018-01", [Flt x; Num 7]); ("birth", "ETERNITY", [Str "1980-02-03"; Str "1970-01-01"])].
+
+Example ex_verdicts :
+  let T := test_with (Some "2018-01") (MAll (1 # 2)) MNone in
+  yaml_verdict ex_vt ex_sing ex_ids ex_values (T (by_variable (ex_cells 3))) = true
+  /\ yaml_verdict ex_vt ex_sing ex_ids ex_values (T (by_entity "person" (ex_cells 3))) = true
+  /\ yaml_verdict ex_vt ex_sing ex_ids ex_values (T (by_instance "persons" ["bob"; "alice"] (ex_cells 3))) = true
+  /\ yaml_verdict ex_vt ex_sing ex_ids ex_values (T (by_variable (ex_cells (13 # 4)))) = false
+  /\ yaml_verdict ex_vt ex_sing ex_ids ex_values (T (by_instance "persons" ["bob"; "alice"] (ex_cells (13 # 4)))) = false
+  /\ yaml_verdict ex_vt ex_sing ex_ids ex_values
+       (mk_ytest (Some "2018-01") [("persons", YD [("alice", YD [("salary", YL (Num 14))])])] MNone (MAll (1 # 2))) = true
+  /\ yaml_verdict ex_vt ex_sing ex_ids ex_values
+       (mk_ytest (Some "2018-01") [("persons", YD [("alice", YD [("salary", YL (Num 15))])])] MNone (MAll (1 # 2))) = false
+  /\ yaml_verdict ex_vt ex_sing ex_ids ex_values
+       (mk_ytest (Some "2018-01") [("housing", YL (Str "tenant")); ("birth", YD [("ETERNITY", YS [Str "1980-02-03"; Str "1970-01-02"])])] MNone MNone) = false.
+Proof. vm_compute. repeat split. Qed.
+
+Example ex_layout_hyps :
+  Forall (fun c : cell => exists ty, ex_vt (fst (fst c)) = Some ty) (ex_cells 3)
+  /\ (ex_vt "person" = None /\ ex_sing "person" = true)
+  /\ (ex_vt "persons" = None /\ ex_sing "persons" = false /\ ex_ids "persons" = Some ["bob"; "alice"])
+  /\ NoDup ["bob"; "alice"] /\ ["bob"; "alice"] <> []
+  /\ Forall (fun c : cell => List.length (snd c) = 2%nat) (ex_cells 3)
+  /\ (forall c arr, In c (ex_cells 3) -> ex_values (fst (fst c)) (snd (fst c)) = Ok arr -> List.length arr = 2%nat).
+Proof.
+  repeat split; try discriminate.
+  - repeat constructor; cbn; eauto.
+  - repeat constructor; cbn; intuition discriminate.
+  - repeat constructor.
+  - intros c arr [<-|[<-|[]]]; cbn; intros [= <-]; reflexivity.
+Qed.
+
+Example ex_expectations :
+  expectations ex_vt ex_sing ex_ids
+    (mk_ytest (Some "2018") [("persons", YD [("alice", YD [("salary", YD [("2018-01", YL (Num 14))])])])] MNone MNone)
+  = Ok [mk_exp "salary" (Some "2018-01") (Some 1%nat) [Num 14]].
+Proof. vm_compute. reflexivity. Qed.
